@@ -21,6 +21,12 @@ func attachMonitors(w *World) {
 	if w.want["C11"] {
 		monC11(w)
 	}
+	if w.want["C12"] {
+		monC12(w)
+	}
+	if w.want["C13"] {
+		monC13(w)
+	}
 	if w.want["C10"] {
 		w.probe("c10-armed")
 	}
